@@ -132,6 +132,7 @@ def run(tier):
     for _ in range(300 if quick else 3000):
         satm, tatm = rng.choice([0, 1, 2]), rng.choice([0, 1, 2])
         conv = rng.choice([0, 1, 2])
+        tconv = conv if rng.random() < 0.6 else rng.choice([0, 1, 2])        # the two geometries may follow different naming conventions
         kind = rng.choice(["same", "fine", "coarse", "shift", "layers", "surface", "unequal"])
         nx, ny = rng.randint(1, 3), rng.randint(1, 3)
         sdz = [10.0, 10.0, 20.0][:rng.randint(2, 3)]
@@ -141,20 +142,20 @@ def run(tier):
             # be nearer to the centre of its thin neighbour
             sdz = rng.choice([[10.0, 100.0, 10.0], [5.0, 50.0, 5.0, 40.0], [30.0, 5.0, 5.0, 60.0]])
             src = make(rng, nx, ny, 20.0, sdz, satm, conv)
-            tgt = make(rng, nx, ny, 20.0, [rng.choice([10.0, 20.0])] * int(sum(sdz) / 20.0), tatm, conv)
+            tgt = make(rng, nx, ny, 20.0, [rng.choice([10.0, 20.0])] * int(sum(sdz) / 20.0), tatm, tconv)
         elif kind == "same":
             tgt = copy.deepcopy(src)
             tgt.atmosphere_type = tatm
         elif kind == "fine":
-            tgt = make(rng, 2 * nx, 2 * ny, 10.0, [5.0] * int(sum(sdz) / 5.0), tatm, conv)
+            tgt = make(rng, 2 * nx, 2 * ny, 10.0, [5.0] * int(sum(sdz) / 5.0), tatm, tconv)
         elif kind == "coarse":
-            tgt = make(rng, max(1, nx // 2), max(1, ny), 40.0, [20.0, 20.0], tatm, conv)
+            tgt = make(rng, max(1, nx // 2), max(1, ny), 40.0, [20.0, 20.0], tatm, tconv)
         elif kind == "shift":
-            tgt = make(rng, nx, ny, 20.0, sdz, tatm, conv, shift=(rng.choice([5.0, 10.0, -7.5]), rng.choice([0.0, 10.0]), rng.choice([0.0, -5.0, 2.5])))
+            tgt = make(rng, nx, ny, 20.0, sdz, tatm, tconv, shift=(rng.choice([5.0, 10.0, -7.5]), rng.choice([0.0, 10.0]), rng.choice([0.0, -5.0, 2.5])))
         elif kind == "layers":
-            tgt = make(rng, nx, ny, 20.0, [5.0] * int(sum(sdz) / 5.0), tatm, conv)
+            tgt = make(rng, nx, ny, 20.0, [5.0] * int(sum(sdz) / 5.0), tatm, tconv)
         else:
-            tgt = make(rng, nx, ny, 20.0, sdz, tatm, conv, surfaces=[rng.choice([0, 5.0, 10.0, 12.5, 15.0]) for _ in range(nx * ny)])
+            tgt = make(rng, nx, ny, 20.0, sdz, tatm, tconv, surfaces=[rng.choice([0, 5.0, 10.0, 12.5, 15.0]) for _ in range(nx * ny)])
         pairs.append((kind, src, tgt))
     cases = [{"src": descriptor(s), "tgt": descriptor(t)} for _, s, t in pairs]
     exps, r = expected(cases)
@@ -269,6 +270,15 @@ def run(tier):
                 if rng.random() < 0.5:
                     # a mass and a heat generator under one name on one block (one lookup key, two list entries)
                     sd.add_generator(t2data.t2generator(name="ge%3d" % 0, block=ub[0], type="HEAT", gx=250.0))
+                if rng.random() < 0.5:
+                    # a generator whose name carries the layer part '99', and an earlier transfer in the same process that
+                    # named that category a top generator: the later transfer, relying on the defaults, must not remember it
+                    gname = {0: "abc99", 1: " 99ab", 2: "99abc"}[src.convention]
+                    sd.add_generator(t2data.t2generator(name=gname, block=ub[0], type="MASS", gx=7.5, ex=2.0e5))
+                    try:
+                        t2data.t2data().transfer_from(sd, src, tgt, top_generator=[src.layer_name(gname)])
+                    except Exception:
+                        pass
                 td = t2data.t2data()
                 try:
                     td.transfer_from(sd, src, tgt, preserve_generation_totals=rng.random() < 0.5)
